@@ -1455,9 +1455,10 @@ class EAStoryDelete(ElementAction):
         """
         A list of :class:`~mosromgr.moselements.Story` objects to be deleted
         """
+        source = self.base_tag.find('element_source')
         return [
-            Story(story_tag)
-            for story_tag in self.base_tag.findall('element_source')
+            Story(source, id=story_id.text)
+            for story_id in source.findall('storyID')
         ]
 
     def merge(self, ro: RunningOrder) -> RunningOrder:
@@ -1515,9 +1516,10 @@ class EAItemDelete(ElementAction):
         """
         A list of :class:`~mosromgr.moselements.Item` objects being deleted
         """
+        source = self.base_tag.find('element_source')
         return [
-            Item(item_tag)
-            for item_tag in self.base_tag.findall('element_source')
+            Item(source, id=item_id.text)
+            for item_id in source.findall('itemID')
         ]
 
     def merge(self, ro: RunningOrder) -> RunningOrder:
@@ -1867,9 +1869,10 @@ class EAStoryMove(ElementAction):
         """
         A list of :class:`~mosromgr.moselements.Story` objects being moved
         """
+        source = self.base_tag.find('element_source')
         return [
-            Story(story_tag)
-            for story_tag in self.base_tag.findall('element_source')
+            Story(source, id=story_id.text)
+            for story_id in source.findall('storyID')
         ]
 
     def merge(self, ro: RunningOrder) -> RunningOrder:
